@@ -36,8 +36,13 @@ def _random_seq(rnd, n):
     return "".join(s)
 
 
-def write_fasta(path, contigs, width=60):
-    """contigs: list of (name, seq). Writes path and path.fai (by hand)."""
+def write_fasta(path, contigs, width=60, lower=()):
+    """contigs: list of (name, seq). Writes path and path.fai (by hand).
+    lower: (contig name, start, stop) ranges written in lower case (soft-masked reference)."""
+    low = {}
+    for n, a, b in lower:
+        low.setdefault(n, []).append((a, b))
+    contigs = [(n, "".join(c.lower() if any(a <= i < b for a, b in low.get(n, ())) else c for i, c in enumerate(q))) for n, q in contigs]
     fai = []
     with open(path, "w", newline="\n") as fh:
         off = 0
@@ -132,6 +137,17 @@ def _alts_for(rnd, ref_base, n_alt):
     return others[:n_alt]
 
 
+# loci touching the contig ends, a 1-bp locus, SNVs on the first / last base of a locus, adjacent SNVs,
+# a soft-masked reference stretch (name, contig index, start, stop, number of SNVs, shape, explicit positions)
+EDGE_PLAN = [
+    ("E1_start", 0, 0, 24, 3, "normal", [0, 1, 23]),
+    ("E2_single", 0, 40, 41, 1, "normal", [40]),
+    ("E3_adjacent", 0, 60, 84, 4, "multi", [70, 71, 72, 73]),
+    ("E4_refabs", 0, 100, 126, 2, "refabsent", None),
+    ("E5_end", 1, 116, 140, 2, "normal", [116, 139]),
+    ("E6_nosnv_start", 1, 0, 20, 0, "nosnv", None),
+]
+
 LOCUS_PLAN = [
     # name, contig index, start, stop, number of SNVs, shape
     ("L1_norm", 0, 10, 40, 3, "normal"),
@@ -145,10 +161,10 @@ LOCUS_PLAN = [
 ]
 
 
-def _pick_snvs(rnd, seq, start, stop, n, tri_first):
+def _pick_snvs(rnd, seq, start, stop, n, tri_first, explicit=None):
     if n == 0:
         return []
-    pos = sorted(rnd.sample(range(start + 1, stop - 1), n))
+    pos = sorted(explicit) if explicit else sorted(rnd.sample(range(start + 1, stop - 1), n))
     out = []
     for i, p in enumerate(pos):
         n_alt = 2 if (tri_first and i == n - 1) else 1
@@ -186,25 +202,27 @@ def _genotype(rnd, shape, snvs, pool, ploidy, sample_index):
 
 
 def make_population(dirpath, seed=0, n_samples=3, ploidies=(4, 4, 4), depth=12, error=0.004,
-                    read_len=34, name="G", deep_sample=None):
+                    read_len=34, name="G", deep_sample=None, plan=None, lower=()):
     """Generate the population dataset; returns the manifest (also written as manifest.json)."""
     os.makedirs(dirpath, exist_ok=True)
     rnd = random.Random(("pop", seed, name).__repr__())
     contigs = [("CTG1", _random_seq(rnd, 210)), ("CTG2", _random_seq(rnd, 140))]
     seqs = dict(contigs)
     ref = os.path.join(dirpath, "ref.fa")
-    write_fasta(ref, contigs)
+    write_fasta(ref, contigs, lower=lower)
     loci = []
-    for lname, ci, start, stop, nsnv, shape in LOCUS_PLAN:
+    for entry in (plan or LOCUS_PLAN):
+        lname, ci, start, stop, nsnv, shape = entry[:6]
+        explicit = entry[6] if len(entry) > 6 else None
         cname, seq = contigs[ci]
-        snvs = _pick_snvs(rnd, seq, start, stop, nsnv, tri_first=shape in ("normal", "multi", "refabsent"))
+        snvs = _pick_snvs(rnd, seq, start, stop, nsnv, tri_first=shape in ("normal", "multi", "refabsent"), explicit=explicit)
         npool = {"normal": 2, "noreads": 2, "refabsent": 3, "refabsent1": 1, "partial": 2, "multi": 5}.get(shape, 0)
         pool = _haplotype_pool(rnd, snvs, npool) if snvs else []
         loci.append({"name": lname, "contig": cname, "start": start, "stop": stop, "snvs": snvs, "shape": shape, "pool": [list(h) for h in pool]})
     sites = [(l["contig"], s["pos0"], s["alleles"]) for l in loci for s in l["snvs"]]
     # two records the SNV reader must skip (an insertion and an MNP), outside every SNV position
     extra = []
-    l1 = loci[0]
+    l1 = max(loci, key=lambda l: l["stop"] - l["start"])
     free = [p for p in range(l1["start"] + 1, l1["stop"] - 2) if all(abs(p - s["pos0"]) > 1 for s in l1["snvs"])]
     if free:
         p = free[0]
@@ -323,23 +341,31 @@ def write_haplotype_vcf(man, path, seed=0):
         rows.append((l, l["name"], alts, masked, f))
     by = {l["name"]: l for l in man["loci"]}
     # specials
-    l = by["L1_norm"]
-    ref, alts = locus_strings(man, l)
-    rows.append((l, "L1_zeroalt", alts, False, freqs(len(alts) + 1, zero=(1,))))
-    rows.append((l, "L1_zerolast", alts, False, freqs(len(alts) + 1, zero=(len(alts),))))
-    rows.append((l, "L1_zeroref", alts, False, freqs(len(alts) + 1, zero=(0,))))
-    rows.append((l, "L1_af0", alts, False, freqs(len(alts) + 1, allzero=True)))
-    rows.append((l, "L1_maskref", alts, True, freqs(len(alts) + 1, zero=(0,))))
-    l = by["L2_nosnv"]
-    rows.append((l, "L2_noa", [], True, [1.0]))
-    l = by["L6_partial"]
-    ref, alts = locus_strings(man, l)
-    rows.append((l, "L6_onlyref", alts, False, freqs(len(alts) + 1, zero=tuple(range(1, len(alts) + 1)))))
-    l = by["L8_multi"]
-    ref, alts = locus_strings(man, l)
-    rows.append((l, "L8_zerolast2", alts, False, freqs(len(alts) + 1, zero=(len(alts) - 1, len(alts)))))
-    rows.append((l, "L8_zeroends", alts, False, freqs(len(alts) + 1, zero=(1, len(alts)))))
-    rows.append((l, "L8_rare", alts, False, [0.5] + [0.02] * 2 + [round((0.5 - 0.04) / (len(alts) - 2), 3)] * (len(alts) - 2)))
+    if "L1_norm" in by:
+        l = by["L1_norm"]
+        ref, alts = locus_strings(man, l)
+        rows.append((l, "L1_zeroalt", alts, False, freqs(len(alts) + 1, zero=(1,))))
+        rows.append((l, "L1_zerolast", alts, False, freqs(len(alts) + 1, zero=(len(alts),))))
+        rows.append((l, "L1_zeroref", alts, False, freqs(len(alts) + 1, zero=(0,))))
+        rows.append((l, "L1_af0", alts, False, freqs(len(alts) + 1, allzero=True)))
+        rows.append((l, "L1_maskref", alts, True, freqs(len(alts) + 1, zero=(0,))))
+        l = by["L2_nosnv"]
+        rows.append((l, "L2_noa", [], True, [1.0]))
+        l = by["L6_partial"]
+        ref, alts = locus_strings(man, l)
+        rows.append((l, "L6_onlyref", alts, False, freqs(len(alts) + 1, zero=tuple(range(1, len(alts) + 1)))))
+        l = by["L8_multi"]
+        ref, alts = locus_strings(man, l)
+        rows.append((l, "L8_zerolast2", alts, False, freqs(len(alts) + 1, zero=(len(alts) - 1, len(alts)))))
+        rows.append((l, "L8_zeroends", alts, False, freqs(len(alts) + 1, zero=(1, len(alts)))))
+        rows.append((l, "L8_rare", alts, False, [0.5] + [0.02] * 2 + [round((0.5 - 0.04) / (len(alts) - 2), 3)] * (len(alts) - 2)))
+    else:
+        for l in man["loci"]:
+            ref, alts = locus_strings(man, l)
+            if len(alts) >= 2:
+                rows.append((l, l["name"] + "_zerolast", alts, False, freqs(len(alts) + 1, zero=(len(alts),))))
+                rows.append((l, l["name"] + "_af0", alts, False, freqs(len(alts) + 1, allzero=True)))
+                break
     order = {c[0]: i for i, c in enumerate(man["contigs"])}
     out = []
     with open(path, "w") as fh:
